@@ -168,6 +168,15 @@ func report(eng *Engine, root, prop, tier string, seed int, results []*FuncResul
 			"wall_s":      round3(wallS),
 			"violations":  violations,
 		}
+		if prop == "C19" {
+			// the frame sweep is a flow analysis over the SSA, not an SMT proof
+			ev["level"] = "other"
+			cov := ev["coverage"].(map[string]interface{})
+			cov["explanation"] = "frame condition 'no store, map update, append, copy or delete whose target is reachable from a package-level variable outside package initialisation': one obligation per store-like instruction of every function of the repository (the obligations count), each decided by a conservative taint/escape analysis over go/ssa of the current tree (roots: package-level variables; flows through addressing, loads of pointer-like values, phi, conversions, calls with parameter/result/escape summaries, closure captures); discharged = targets shown not global-rooted. Not an SMT proof and not a model of schedules."
+			cov["evaluations"] = nObl
+			cov["distinct_nontrivial"] = nObl
+			cov["rule"] = "one case per store-like SSA instruction (store, map update, append, copy, delete) of every function in the module; all are distinct program points"
+		}
 		os.MkdirAll(filepath.Join(root, "evidence"), 0o755)
 		data, _ := json.MarshalIndent(ev, "", " ")
 		os.WriteFile(filepath.Join(root, "evidence", prop+".json"), append(data, '\n'), 0o644)
